@@ -183,8 +183,11 @@ class AccountThread(object):
         if self.state == "dead":
             return
         self.go.release()
-        if not self.idle.acquire(timeout=600):
-            raise RuntimeError("account thread %s did not park (state %s)" % (self.account.phone, self.state))
+        if not self.idle.acquire(timeout=float(os.environ.get("VF_TIMEOUT", "600"))):
+            import sys, traceback
+            fr = sys._current_frames().get(self.ident)
+            where = "".join(traceback.format_stack(fr)[-14:]) if fr is not None else "(no frame)"
+            raise RuntimeError("account thread %s did not park (state %s); it is at:\n%s" % (self.account.phone, self.state, where))
 
     def _main(self):
         import threading
